@@ -16,13 +16,22 @@ CLAIMED = {
                 technique='deterministic simulation: seeded query histories over fixed overrides, every response compared with an isolated single query on a pristine executor in a foreign process',
                 text='Overrides are established once (one write per cell), then 6-80 queries from 1-3 logical clients through get_cell/get_cells/get_sheet with every addressing spelling, repeated and permuted, with evaluation failures in the middle and (on some runs) a simulated clock step between two bursts; each response must equal the value of one get_cell on a pristine executor (other process, other hash seed, same instant), get_sheet must have exactly the spec-derived shape, and sizes must be unchanged afterwards.',
                 note='Exploration over sampled histories. The isolated reference uses the same generated source text (C09 decides that the text itself is stable). Grid shape is derived from the workbook spec, so the check assumes the reader reports the used range of a dense-origin workbook correctly (C18, not claimed).'),
+    'C06': dict(engine='loadsim', design='4.6',
+                technique='deterministic simulation: seeded write/load/clock-jump histories over real files re-stamped from a simulated clock (granularity 1ns..2s), file-loaded executor compared with the class object of the returned text',
+                text='Decides ONLY the clause "behaves the same whether loaded from the written file or used as a class object": 2-4 variants of a generated workbook are translated and written to 1-3 output paths repeatedly, the paths are loaded through Executor.set_executed_class(class_file=...) into fresh executors between clock jumps (forward and backward, inside and across timestamp quanta), other tools leave bytecode-cache entries behind, and every cell of the file-loaded executor must equal the same cell of an executor given the class object exec\'d from the text the parser returned for that write.',
+                note='Totality, foreign exceptions and termination over arbitrary workbooks (the rest of C06) are a quantifier over inputs and are NOT decided here. File timestamps are re-stamped at close from the simulated clock; importlib itself is real. Bytecode writing is enabled at run time (the sandbox exports PYTHONDONTWRITEBYTECODE=1).'),
+    'C12': dict(engine='clocksim', design='4.4',
+                technique='deterministic simulation: one translated criteria-matrix workbook evaluated along a seeded timeline of simulated instants/time zones (LD_PRELOAD clock shim), outcome of every TODAY-free cell must be time-invariant',
+                text='Decides ONLY the necessary condition that the positions selected by SUMIF/SUMIFS/COUNTIFS/AVERAGEIFS are a function of ranges and criteria and not of the day on which the formula is evaluated: every conditional-aggregate cell without TODAY() must give the identical outcome at 6-20 simulated instants covering every month-length class, month/year ends, zone changes and an auto-advancing clock.',
+                note='Does not decide whether the returned value is the right one (pure-input question, not claimed). One recorded finding (dateutil completes partial date texts from today) is listed in known_findings.json; it is attributed by a counterfactual re-run with the dateutil default pinned, so any other time dependence is still reported; half of all runs contain no date-like text at all and must be clean.'),
+    'C15': dict(engine='clocksim', design='4.5',
+                technique='deterministic simulation: TODAY() dashboard driven through seeded clock jumps (forward/backward), zone and DST changes under an LD_PRELOAD clock shim; responses checked against independent calendar arithmetic on the simulated instant',
+                text='Decides the clock-reachable part of C15: TODAY is the simulated local date at midnight in every zone/DST state, is not folded at translation or cached at construction, and YEAR/MONTH/DAY/DATE/EDATE/EOMONTH/DATEDIF(D,M,Y,YM)/NETWORKDAYS/IF computed from it follow the statement\'s definitions as simulated time passes (1971-2099), for both the generated class and a subclass of the importable base class.',
+                note='The rest of the quantifier of C15 (all (y,m,d) triples in a wide box, all offsets -60..60, all holiday subsets) is an input sweep and is NOT claimed: a defect for dates not reachable from the dashboard goes unseen. Local time is evaluated by an independent POSIX-TZ evaluator cross-checked against libc for the same explicit instant.'),
 }
 
 NOT_YET = {
-    'C06': 'claimed by DESIGN.md 4.6 (file-loaded vs class object under rewrite histories); check under construction in this round',
     'C09': 'claimed by DESIGN.md 4.3 (facade histories x thread schedules x I/O faults); check under construction in this round',
-    'C12': 'claimed by DESIGN.md 4.4 (clock-invariance slice); check under construction in this round',
-    'C15': 'claimed by DESIGN.md 4.5 (clock-reachable part); check under construction in this round',
 }
 
 NA = {
